@@ -245,7 +245,7 @@ fn drain(s: &mut Sess) -> String {
             }
         }
     }
-    evs.sort();
+    // events stay in arrival order per subscription; the driver canonicalises (stable sort by key)
     let mut granted = vec![];
     let mut cancelled = vec![];
     for (i, r) in s.reqs.iter_mut().enumerate() {
